@@ -84,8 +84,13 @@ Handle(e) ==
            IN <<b1, s1,
                 FrontDevs(cfg, b1, s, e)
                 \cup (IF ~s.curknown THEN {}
+                      ELSE IF s.cur = <<-2, -2>> THEN       \* hidden: only "not visible" is required
+                           (IF e.cursor[3] THEN {Dev("C18.cursor", "visible_after_hide", e.cursor)} ELSE {})
                       ELSE LET inr == s.cur[1] >= 0 /\ s.cur[2] >= 0 /\ s.cur[1] < b1.w /\ s.cur[2] < b1.h IN
                            IF e.cursor = <<s.cur[1], s.cur[2], inr>> THEN {} ELSE {Dev("C18.cursor", "after_show", <<e.cursor, s.cur>>)})>>
+      [] e.ev = "HideCursor" ->
+           <<cb, [s EXCEPT !.cur = <<-2, -2>>, !.curknown = TRUE],
+             IF e.cursor[3] THEN {Dev("C18.cursor", "visible_after_hide", e.cursor)} ELSE {}>>
       [] e.ev = "ShowCursor" ->
            LET inr == e.x >= 0 /\ e.y >= 0 /\ e.x < s.pw /\ e.y < s.ph IN
            <<cb, [s EXCEPT !.cur = <<e.x, e.y>>, !.curknown = TRUE],
